@@ -23,7 +23,7 @@ PROPS["C13"] = {
 }
 
 PROPS["C04"] = {
-    "suites": [("comp_router", "gen_c04"), ("comp_router", "gen_reentrant")],
+    "suites": [("comp_router", "gen_c04"), ("comp_router", "gen_reentrant"), ("comp_conn", "gen_hostile")],
     "rule": "every subset (thorough: and order) of the devices {A, B, catch-all} x 0..3 registered clients; per state a sweep of every client-originated kind x device name "
             "{A, B, none, unknown} x every sender (nobody, each client, each device), enableBLOB from every sender incl. an unregistered one for every name and policy, "
             "unregister + resend; plus random histories up to 200 operations over 5 devices / 5 clients; a history is distinct by its operation list; re-entrant endpoints (scripted reactions sent from inside the handler) and the library's SnoopingClient among the clients",
@@ -51,7 +51,7 @@ PROPS["C09"] = {
 }
 
 PROPS["C02"] = {
-    "suites": [("comp_buf", "gen_c02"), ("comp_buf", "gen_c02_constants"), ("comp_xml", "gen_session")],
+    "suites": [("comp_buf", "gen_c02"), ("comp_buf", "gen_c02_constants"), ("comp_xml", "gen_session"), ("comp_xml", "gen_transport")],
     "rule": "one message of every kind in two sizes, text with > < & quotes non-ASCII ]]> in 6 XML spellings (library to_string, compact, indented, single quotes + reversed attributes, "
             "explicit empty elements + raw '>' in text + declaration in single quotes, attributes on separate lines + CRLF); per stream all 1-cut partitions, all 2-cut partitions when "
             "short (sampled otherwise), character-by-character, whole; thresholds {exactly fitting, one below (outside the hypothesis), 2048, disabled}; sequences of 2-5 messages with random "
@@ -60,7 +60,7 @@ PROPS["C02"] = {
     "assumptions": ["(A1) whatever parses contains the opener of a registered tag; spellings without CDATA/comments containing openers"],
 }
 PROPS["C11"] = {
-    "suites": [("comp_buf", "gen_c11"), ("comp_xml", "gen_session")],
+    "suites": [("comp_buf", "gen_c11"), ("comp_buf", "gen_c11_many"), ("comp_xml", "gen_session")],
     "rule": "valid messages truncated at every position followed by valid traffic; junk assembled from protocol fragments (known/unknown openers and closers, attributes, quotes, "
             "< > &, comments, CDATA, declarations, NUL, Latin-1, entity references) interleaved with valid and truncated messages and random bytes; long junk beyond every threshold "
             "then valid messages; x random fragmentations x thresholds {16, 128, 2048, disabled}; watchdog on every process(); distinct by (threshold, partition); the same streams through the buffer model with the character-level model parser (no table)",
@@ -174,7 +174,7 @@ PROPS["C06"] = {
     "assumptions": ["switch elements not named in the write may change under the property's rule (C09 decides how)"],
 }
 PROPS["C08"] = {
-    "suites": [("comp_sys", "gen_c08"), ("comp_sys", "gen_c08_burst"), ("comp_buf", "gen_c02_constants"), ("comp_num", "gen_b64")],
+    "suites": [("comp_sys", "gen_c08"), ("comp_sys", "gen_c08_burst"), ("comp_buf", "gen_c02_constants"), ("comp_num", "gen_b64"), ("comp_router", "gen_c05")],
     "rule": "byte strings of every length 0..39 and around the 1024-byte read size and the 2048-character threshold (thorough: every 13th length up to 3100, all of 700..800 and 1500..1560, "
             "100 kB and 1 MB), random contents and all 256 byte values, formats {.fits, .x, empty} x fragmentation {1024, 1, random} x clients {network (BLOB connection Only), network with "
             "Also on the control connection, in-process snooping client (Never)} x direction (driver publishes; client uploads), each followed by ordinary traffic that must still arrive; "
